@@ -193,7 +193,7 @@ impl Family for B7 {
             if big.status != Status::Exit(0) {
                 out.violations.push(viol("C11", "cli_stream_failed", format!("{}: {:?} {}", what, big.status, big.stderr_text().chars().take(200).collect::<String>())));
             }
-            if base.max_rss_kib > 0 && big.max_rss_kib > base.max_rss_kib.max(48 * 1024) + 8 * 1024 {
+            if big.max_rss_kib > base.max_rss_kib.max(48 * 1024) + 8 * 1024 {
                 out.violations.push(viol("C11", "cli_memory_grows_with_input", format!("{}: peak RSS {} KiB, {} KiB for 1 MiB", what, big.max_rss_kib, base.max_rss_kib)));
             }
             out.trace_hash = crate::rng::fnv64(format!("{:?}", big.status).as_bytes());
@@ -223,7 +223,7 @@ impl Family for B7 {
         // The sampled VmHWM of a 0.1 s baseline can miss its own scrypt peak (32 MiB) on a loaded
         // machine, so the reference level is never taken below 48 MiB - still less than the smallest
         // input used here, so buffering proportional to the input is seen.
-        if base.max_rss_kib > 0 && big.max_rss_kib > base.max_rss_kib.max(48 * 1024) + 8 * 1024 {
+        if big.max_rss_kib > base.max_rss_kib.max(48 * 1024) + 8 * 1024 {
             out.violations.push(viol("C11", "cli_memory_grows_with_input", format!("{}: peak RSS {} KiB, {} KiB for the same command on 1 MiB", what, big.max_rss_kib, base.max_rss_kib)));
         }
         // RSS values vary by a few pages between runs: they are evidence, not part of the trace
